@@ -10,7 +10,9 @@
       ([ASet] / [AUpdate] by node, bind or cutoff functions) and any number of faults
       [(x, w, AFail k)], [w] the function (of a Map-like node or of a bind) or the cutoff
       function of [x], [k] an error or a panic (C07_binds_multi_fault); or a parallel pass
-      [ParStabilize p] whose plan has writes and at most ONE fault ([isOneFaultPlan]; the parallel
+      [ParStabilize p] whose plan has writes and at most ONE fault (this restriction is DROPPED in
+      C07_binds_parallel_multi_fault.v: [C01_history_binds_all_plans] over [histA_run], which
+      includes [histE_run]) ([isOneFaultPlan]; the parallel
       stabilizer keeps the first error of a block, so with two the result depends on the order)
       and is clean (no fault of a bind function, [par_plan_clean]); returning [Ok (_, e)] with
       [e] not a rejected edge.
